@@ -12,6 +12,7 @@
   satisfies them (or, for the substitution clause, on which inputs it does).
 -/
 import ControlModel.Model.Query
+import ControlModel.Model.QueryConc
 
 namespace Spec.C20
 open Query
@@ -219,5 +220,63 @@ def obsOfResp : Resp → ObsItem
 
 /-- what the model answers to a history on one service that starts fresh (printed by the driver as `modelObs`) -/
 def modelSeqObs (t : List Leaf) (ops : List Op) : List ObsItem := (run (freshSvc t) ops).map obsOfResp
+
+/-! ## concurrent requests on one service over an unchanged configuration
+
+  The property's clauses are read for EACH answer by itself, whatever else the service was doing at the time: a
+  resolution must name the most specific existing entry of the (unchanged) backend, a payload must be the named entry's
+  content, a processed payload that content templated with this request's variables. -/
+
+/-- one answer to one request -/
+def reqOk (t : List Leaf) : Req → ObsItem → Bool
+  | .res q, .res r p => resolutionOk (yamlExists t) q r && p == .dash
+  | .get q, .pay p => payloadOk t q p
+  | .rget q, .res r p =>
+    resolutionOk (yamlExists t) q r &&
+    (match r with
+     | .ok rq _ => payloadOk t rq p
+     | _ => p == .dash)
+  | .proc q vars, .pay p => templatedOk t q vars p
+  | .rproc q vars, .res r p =>
+    resolutionOk (yamlExists t) q r &&
+    (match r with
+     | .ok rq _ => templatedOk t rq vars p
+     | _ => p == .dash)
+  | _, _ => false
+
+/-- what was observed for one request: its answer when issued alone, and the distinct answers it received while the
+    other requests were in flight -/
+structure ConcObs where
+  alone : ObsItem
+  conc : List ObsItem
+  deriving Repr
+
+/-- every answer to every request satisfies the property, and every request was answered -/
+def concOk (t : List Leaf) : List Req → List ConcObs → Bool
+  | [], [] => true
+  | rq :: rs, o :: os => reqOk t rq o.alone && !o.conc.isEmpty && o.conc.all (reqOk t rq) && concOk t rs os
+  | _, _ => false
+
+/-- every query could have been spelled as a query string -/
+def reqWf : Req → Bool
+  | .res q => wf q
+  | .get q => wf q
+  | .rget q => wf q
+  | .proc q _ => wf q
+  | .rproc q _ => wf q
+
+/-- the values a request supplies for the names its (linked) entry mentions are free of the autoescaped characters -/
+def reqEscFree (t : List Leaf) : Req → Bool
+  | .proc q vars => reqEscapeFree t q vars
+  | .rproc q vars =>
+    (match resolve (yamlExists t) q with
+     | some rq => reqEscapeFree t rq vars
+     | none => true)
+  | _ => true
+
+/-- what the model answers (printed by the driver as `modelObs`): for every request its sequential answer, and that
+    answer again as the only one it can receive under concurrency -/
+def modelConcObs (t : List Leaf) (reqs : List Req) : List ConcObs :=
+  reqs.map fun rq => ⟨obsOfResp (rq.answer t), [obsOfResp (rq.answer t)]⟩
 
 end Spec.C20
